@@ -49,6 +49,7 @@ class Opts:
         self.for_param = False        # FOR over a by-reference parameter (known finding)
         self.exit_stmts = True
         self.builtins = True
+        self.seed_vars = False        # initialise a few variables from INPUT / RND so that paths depend on the script
         self.__dict__.update(kw)
 
 
@@ -969,6 +970,15 @@ class Gen:
                 self.make_proc()
         body = []
         self.declare_some(main, body)
+        if o.seed_vars:
+            nums = [v for v in main.scalars if v[1] in NUM]
+            r.shuffle(nums)
+            for k_, (vn, vt) in enumerate(nums[:3]):
+                if k_ == 0 and o.input and vt in '%&':
+                    body.append(['input', None, None, [('var', vn, vt)]])
+                elif o.rnd:
+                    body.append(['let', ('var', vn, vt), ('bin', '*', ('bcall', 'RND', []), ('lit', '!', r.choice([2.0, 10.0, 100.0]))), False])
+            self.features.add('seeded-from-script')
         nst = r.randint(max(3, o.max_stmts // 2), o.max_stmts)
         for _ in range(nst):
             body.extend(self.stmt(main, o.max_depth))
